@@ -8,6 +8,49 @@ TRUSTED = ["JAX's automatic differentiation of every primitive and of their comp
 ASSUMPTIONS = ["partial: Coq proves differentiability / derivative formulas of building blocks, gradient-safety of the singularity guards, exact selection of trainables and that checkpointing does not change the function; jax.grad of the whole simulation is compared with converged central finite differences in float64 on sampled models"]
 
 
+def stone_gradient_case(viol):
+    """known finding F64 in reverse mode: with voltage_solver='jaxley.stone' a branch with somewhat more compartments
+    than a power of two gives a finite loss (equal to the other backends') but a NaN gradient; jaxley.thomas must give
+    a finite gradient that agrees with central finite differences"""
+    import jax
+    import jax.numpy as jnp
+    import numpy as np
+    import jaxley as jx
+    from jaxley.channels import HH
+    from simlib import quiet
+    dt, t_max = 0.025, 1.0
+    with quiet():
+        br = jx.Branch(jx.Compartment(), ncomp=136)
+        br.insert(HH())
+        br.set("axial_resistivity", 35.4)
+        br.comp(0).stimulate(jx.step_current(0.2, 0.6, 0.05, dt, t_max), verbose=False)
+        br.comp(0).record(verbose=False)
+        br.comp(135).record(verbose=False)
+        br.make_trainable("radius", verbose=False)
+    params = br.get_parameters()
+    out = {}
+    for vs in ("jaxley.thomas", "jaxley.stone"):
+        def loss(p, vs=vs):
+            return jnp.mean(jx.integrate(br, params=p, delta_t=dt, voltage_solver=vs) ** 2)
+        with quiet():
+            val, g = jax.value_and_grad(loss)(params)
+        out[vs] = (float(val), float(np.asarray(g[0]["radius"]).ravel()[0]))
+    h = 1e-5
+    with quiet():
+        lp = float(jnp.mean(jx.integrate(br, params=[{"radius": params[0]["radius"] + h}], delta_t=dt, voltage_solver="jaxley.thomas") ** 2))
+        lm = float(jnp.mean(jx.integrate(br, params=[{"radius": params[0]["radius"] - h}], delta_t=dt, voltage_solver="jaxley.thomas") ** 2))
+    fd = (lp - lm) / (2 * h)
+    gt = out["jaxley.thomas"][1]
+    if not np.isfinite(gt) or abs(gt - fd) > 1e-4 * max(1.0, abs(fd)):
+        viol.append({"kind": "gradient through jaxley.thomas differs from finite differences on a long branch", "gradient": gt, "finite_difference": fd, "finding_class": None})
+    gs = out["jaxley.stone"][1]
+    if not np.isfinite(gs) or abs(gs - fd) > 1e-4 * max(1.0, abs(fd)):
+        viol.append({"kind": "gradient through jaxley.stone is NaN / wrong on a branch of 136 compartments while the loss is finite", "loss_stone": out["jaxley.stone"][0],
+                     "loss_thomas": out["jaxley.thomas"][0], "gradient_stone": gs, "gradient_thomas": gt, "finite_difference": fd,
+                     "finding_class": "stone_recursive_doubling_underflow"})
+    return 2
+
+
 def run(ctx):
     import numpy as np
     import jax
@@ -192,6 +235,11 @@ def run(ctx):
         except Exception as ex:
             import traceback
             viol.append({"kind": "differentiating a network raised", "error": repr(ex)[:300], "trace": traceback.format_exc()[-600:]})
+    try:
+        evals += stone_gradient_case(viol)
+    except Exception as ex:
+        import traceback
+        viol.append({"kind": "stone gradient case raised", "error": repr(ex)[:300], "trace": traceback.format_exc()[-500:]})
     for v in viol:
         v.setdefault("finding_class", None)
     return {"evaluations": evals, "distinct_nontrivial": len(distinct),
